@@ -195,6 +195,9 @@ RunResult run_bst(const Program &p, bool trace) {
         } else if (n == "itr") {
             sim::Rng r(sim::mix64(p.getu("seed"), op.arg(0) + 5));
             int remove_pct = (int)(op.arg(1) % 101);
+            int again_pct = (int)(op.arg(2) % 101);
+            sim::Rng r2(sim::mix64(p.getu("seed"), op.arg(0) + 77));
+            bool loose = false;
             std::vector<long> visited, removed;
             std::set<long> live = D->model;
             m_bst_itr_t *itr;
@@ -212,21 +215,35 @@ RunResult run_bst(const Program &p, bool trace) {
                 if (guard++ > live.size() + 4) VIOL("C11", "C11:itr-endless", "iterator yields more elements than the set holds");
                 void *e = m_bst_itr_get_data(itr);
                 long ek = e ? key_of(e) : -1;
-                if (ek < 0 || !D->model.count(ek)) VIOL("C11", "C11:itr-ghost", "iterator yielded an element that is not in the set");
+                if (!loose && (ek < 0 || !D->model.count(ek))) VIOL("C11", "C11:itr-ghost", "iterator yielded an element that is not in the set");
                 visited.push_back(ek);
-                if ((int)r.below(100) < remove_pct) {
+                if (!loose && (int)r.below(100) < remove_pct) {
                     int rc = m_bst_itr_remove(itr);
                     if (rc != 0) VIOL("C11", "C11:itr-remove-failed", "m_bst_itr_remove rc=%d", rc);
                     D->model.erase(ek);
                     removed.push_back(ek);
                     D->itr_removals++;
                     D->mutations++;
+                    // a second removal before the iterator moved on: there is no current element any more. It is either refused (nothing
+                    // changes) or it acts on the element the iterator would yield next - never on another one
+                    if ((int)r2.below(100) < again_pct) {
+                        sim::R->ctr.probe("bst_itr_remove_twice");
+                        int rc2 = m_bst_itr_remove(itr);
+                        auto nx = D->model.upper_bound(ek);
+                        if (rc2 == 0) {
+                            if (nx == D->model.end()) VIOL("C11", "C11:itr-remove-nothing-ok", "a second m_bst_itr_remove with no element left to visit returned 0");
+                            removed.push_back(*nx);
+                            D->model.erase(nx);
+                            D->mutations++;
+                            loose = true;   // (whether the iterator then moves on is not ours to say)
+                        }
+                    }
                 }
                 m_bst_itr_next(&itr);
             }
             sim::tr("bst_itr", (long)visited.size(), (long)removed.size());
             oracle_eval("C11.itr-sorted-once");
-            if (!(fired && visited.empty())) {
+            if (!(fired && visited.empty()) && !loose) {
                 for (size_t i = 1; i < visited.size(); i++)
                     if (visited[i] <= visited[i - 1]) VIOL("C11", visited[i] == visited[i - 1] ? "C11:itr-visited-twice" : "C11:itr-not-ascending", "iterator yielded %ld after %ld", visited[i], visited[i - 1]);
                 std::vector<long> want(live.begin(), live.end());
@@ -297,7 +314,7 @@ Program gen_bst(uint64_t seed, bool thorough) {
         case 0: p.add("D", "insert", {(long)r.below(nkeys)}); break;
         case 1: p.add("D", "remove", {(long)r.below(nkeys)}); break;
         case 2: p.add("D", "find", {(long)r.below(nkeys)}); break;
-        case 3: p.add("D", "itr", {(long)r.below(100000), (long)(r.chance(0.7) ? r.below(101) : 0)}); break;
+        case 3: p.add("D", "itr", {(long)r.below(100000), (long)(r.chance(0.7) ? r.below(101) : 0), (long)(r.chance(0.3) ? r.below(101) : 0)}); break;
         case 4: p.add("D", "clear"); break;
         case 5: p.add("D", "free", {(long)r.below(8)}); break;
         case 6: p.add("D", "new", {(long)r.below(2), (long)r.below(2), (long)r.below(8)}); break;
